@@ -9,7 +9,7 @@ RULE = ('case = reg.run <big-endian?> <areas> <initial words> <entries> <ops>: a
         'registers with trivial/fail/min/max/range/callback constraints), then a history of operations; after EVERY operation the result class (success / refused / refused-as-NOENTRY / '
         'uninitialised), for get the exact code, type and value, and a dump of every word of every area plus the touched flags.  C01 cases: every type x both byte orders x memory/callback backing x '
         'every constraint kind with bounds at type min/max/0; values: exhaustive for 16-bit types (thorough) / stride (quick), boundaries +-1 of each bound, float classes (zeros, subnormals, '
-        'infinities, quiet and signalling NaNs), random; checked and unchecked set, wrongly typed values, handles 0..entries+2 and 2^32-1.  Non-trivial: every case.')
+        'infinities, quiet and signalling NaNs), random; checked and unchecked set, wrongly typed values, handles 0..entries+2, 2^32-1, 2^32-2 and every k+2^b that aliases a register when truncated.  Non-trivial: every case.')
 TRUSTED_BASE = TB_COMMON + ['Model/RegTable.v hand-written from src/registers/core.c; float comparison and isnormal modelled on IEEE-754 bit patterns and PROVED equal to the comparison / classification of Flocq 4 formalisation of IEEE-754 binary32 / binary64 (Proof/FloatOrder.v); tie = correspondence',
                             'the corollaries C01_float32/64_order_is_Bcompare (Flocq validated numbers b32_of_bits / b64_of_bits) depend on the standard-library axioms ClassicalDedekindReals.sig_not_dec, ClassicalDedekindReals.sig_forall_dec, FunctionalExtensionality.functional_extensionality_dep, Classical_Prop.classic (brought in by Flocq validity proofs over the reals); every other theorem is closed under the global context']
 ASSUMPTIONS = ['validator callbacks are pure functions of the value', 'custom area callbacks behave like memory (succeed and store)',
@@ -20,7 +20,7 @@ LEVEL_TEXT = ('Properties_C01.v: a successful typed set followed by get returns 
               'exactly for type mismatch, constraint violation, missing write callback or non-finite/subnormal float, NOENTRY exactly for a bad handle (also unchecked); refused sets change nothing.  The float order used by the constraints and the zero/normal classification are proved to be those of IEEE-754 as formalised by Flocq (every pair of bit patterns, NaN/-0/infinities/subnormals included).')
 LEVEL_NOTE = 'Trusted: Coq kernel; hand model of registers/core.c (correspondence-tested); IEEE-754 comparisons on bit patterns, proved equal to Flocq. Axioms: none, except the four standard-library axioms (classic, functional_extensionality_dep, sig_not_dec, sig_forall_dec) under the two Bcompare corollaries.'
 
-def gen(rng, tier):
+def gen0(rng, tier):
     big = tier == 'thorough'
     for t in range(8):
         for be in (0, 1):
@@ -41,7 +41,9 @@ def gen(rng, tier):
                         for wt in range(8):
                             if wt != t:
                                 ops += [(1, 1, wt, rng.randrange(1 << TBITS[wt]))]
-                        for h in (0, 1, 2, 3, 4, 5, 2**32 - 1):
+                        # ... and handles that alias a register when truncated to fewer bits (k + 2^b)
+                        alias = [1 + (1 << b) for b in range(2, 32)] + [k + (1 << b) for k in (0, 2) for b in (8, 16, 31)]
+                        for h in [0, 1, 2, 3, 4, 5, 2**32 - 1, 2**32 - 2] + alias:
                             ops += [(1, h, 0 if h != 1 else t, 5), (2, h, 0 if h != 1 else t, 5), (3, h)]
                         yield tab.line(ops)
         # no write callback / skip-defaults areas
@@ -72,3 +74,8 @@ def gen(rng, tier):
 def nontrivial(c):
     return True
 NO_SHRINK = True
+
+def gen(rng, tier):
+    yield from gen0(rng, tier)
+    # the first tables again, moved so that their area ends at 2^32
+    yield from at_top(gen0, rng, tier, 192 if tier == 'thorough' else 48)
